@@ -109,6 +109,25 @@ func (*Scanner).errorToken [C13, C03]
   ensures result.Range.Start.Line == s.startLine && result.Range.Start.Column == s.startColumn
   ensures result.Range.End.Line == s.line && result.Range.End.Column == s.column
 
+// character classes (each proved against its definition, so that callers do not re-explore them)
+spec alphaRune(r int) bool := (97 <= r && r <= 122) || (65 <= r && r <= 90) || r == 223 || r == 95 || r == 228 || r == 196 || r == 246 || r == 214 || r == 252 || r == 220
+spec digitRune(r int) bool := 48 <= r && r <= 57
+func isAlpha [C13]
+  pure
+  ensures result == alphaRune(r)
+func isDigit [C13]
+  pure
+  ensures result == digitRune(r)
+func isAlphaNumeric [C13]
+  pure
+  ensures result == (alphaRune(r) || digitRune(r))
+func isSpace [C13]
+  pure
+  ensures result == isBlank(r)
+func isUpper [C13]
+  pure
+  ensures result == ((65 <= r && r <= 90) || r == 196 || r == 220 || r == 214)
+
 func (*Scanner).skipWhitespace [C13, C03]
   safe
   requires J(s) && P(s)
@@ -158,7 +177,7 @@ func (*Scanner).identifier [C13, C03]
 // escape sequences: exactly \a \b \n \r \t \\ and the closing quote are accepted; anything else is reported
 func (*Scanner).scanEscape [C13, C19, C03]
   safe
-  requires J(s) && P(s) && s.cur < len(s.src) && curRune(s) == 92
+  requires J(s) && P(s) && s.cur < len(s.src) && curRune(s) == 92 && (quote == 34 || quote == 39)
   modifies scanner.Scanner.cur, scanner.Scanner.column, scanner.Scanner.shouldIndent, parser.parser.errored
   ensures J(s) && P(s) && s.cur >= old(s.cur) && s.cur < len(s.src) && curRune(s) != 10 && s.start == old(s.start)
   ensures result ==> s.cur == old(s.cur) + 1
